@@ -1,10 +1,12 @@
 package c18
 
 // In-memory duplex transport with adversarial chunking: a Read returns between 1 and k bytes
-// (k and the chunk sequence are derived from the op line, never from the clock) and never spans two Writes
-// (segment boundaries are kept, as a TCP stack that delivers each push separately; the coalescing case is the
-// dedicated handshake scenario `coalesce`), buffers are unbounded
-// so writers never block, and a reader blocks only while the peer may still write.  In `nonblock` mode an
+// (k and the chunk sequence are derived from the op line, never from the clock).  Two delivery modes, chosen by the op:
+//   join=false  a Read never spans two Writes (a TCP stack that delivers each push separately)
+//   join=true   Writes are coalesced into one byte stream, so a Read may return the tail of one message together with
+//               the head of the next (what TCP does when both are queued before the reader wakes up) — this is what made
+//               the plaintext key exchange lose the peer's auth frame before fd59b35
+// Buffers are unbounded so writers never block, and a reader blocks only while the peer may still write.  In `nonblock` mode an
 // empty buffer is io.EOF at once, which makes the data phase of a stream case fully synchronous.
 
 import (
@@ -29,6 +31,7 @@ type halfPipe struct {
 	total    int    // bytes ever written
 	log      []byte // everything ever written (tap), if keep
 	keep     bool
+	join     bool
 }
 
 func newHalf(k int, seed uint32, keep bool) *halfPipe {
@@ -44,7 +47,11 @@ func (h *halfPipe) write(p []byte) (int, error) {
 		return 0, errClosedPipe
 	}
 	if len(p) > 0 {
-		h.segs = append(h.segs, append([]byte{}, p...))
+		if h.join && len(h.segs) > 0 {
+			h.segs[len(h.segs)-1] = append(h.segs[len(h.segs)-1], p...)
+		} else {
+			h.segs = append(h.segs, append([]byte{}, p...))
+		}
 	}
 	h.total += len(p)
 	if h.keep {
@@ -154,9 +161,10 @@ func (e *end) SetReadDeadline(t time.Time) error  { return nil }
 func (e *end) SetWriteDeadline(t time.Time) error { return nil }
 
 // duplex returns two connected endpoints; ab carries a->b, ba carries b->a.
-func duplex(k int, seed uint32, keep bool) (a, b *end, ab, ba *halfPipe) {
+func duplex(k int, seed uint32, keep, join bool) (a, b *end, ab, ba *halfPipe) {
 	ab = newHalf(k, seed, keep)
 	ba = newHalf(k, seed+77, keep)
+	ab.join, ba.join = join, join
 	return &end{in: ba, out: ab}, &end{in: ab, out: ba}, ab, ba
 }
 
